@@ -2,7 +2,7 @@
 From Coq Require Import ZArith List.
 From V Require Import Valid.Hier Valid.Walk Valid.FlatRegion Valid.Run.
 From Coq Require Import Lia.
-From V Require Import Model.Pipe Model.PipeBounded Model.PipeBounded4 Model.Graph Model.Edits Model.JoinPath.
+From V Require Import Model.Pipe Model.PipeBounded Model.PipeBounded4 Model.Graph Model.Edits Model.Edits2 Model.JoinPath Model.Refine Model.CbPath.
 
 Theorem C06_checker_sound : forall h, c06_check h = true -> CtrlSafe h.
 Proof. exact c06_check_sound. Qed.
@@ -43,3 +43,36 @@ Theorem C06_closing_ctrl_safe :
     Input g top fresh -> oentry (og g) = Some en -> join_returns g fresh 3 = Ok g' -> CtrlSafe (ehier top g').
 Proof. exact join_returns_ctrl. Qed.
 Print Assumptions C06_closing_ctrl_safe.
+
+(* header unification, for ALL graphs (no bound), in the strict reading (a branching block must find
+   its variable assigned and not yet read by it since): if every decision list can be walked from an
+   original block of the graph without getting stuck, the same holds after
+   insert_block_and_control_blocks - the new head reads the new variable right after the arc's own
+   assignment block set it, to a key of the head's table, and no old block is disturbed.
+   Hypotheses as in C01_header_unification_preserves_paths. *)
+Theorem C06_header_unification_ctrl_safe :
+  forall g top new var preds Ss names cls g',
+    NoDup preds /\ ~ In new preds ->
+    (NoDup names /\ forall a, In a names ->
+        efind g a = None /\ a <> new /\ ~ In a preds /\ ~ In a Ss /\ a <> top) ->
+    (forall p b, In p preds -> efind g p = Some b ->
+        NoDup (e_jt b) /\ (forall a, In a names -> ~ In a (e_jt b)) /\
+        (forall c v t, e_kind b = EBranch c v t -> NoDup (map fst t))) ->
+    ~ In top (ekeys g) /\ top <> new ->
+    efind g new = None ->
+    (forall x b t, efind g x = Some b -> In t (e_jt b) -> In t (ekeys g)) ->
+    (forall s, In s Ss -> In s (ekeys g)) ->
+    (forall x b, efind g x = Some b ->
+        match e_kind b with
+        | EAssign a => forall p, In p a -> fst p <> var
+        | EBranch _ v _ => v <> var
+        | EPlain _ => True
+        end) ->
+    insert_cb g new var preds Ss names cls = Ok g' ->
+    forall n e e' ds,
+      (exists b, efind g n = Some b /\ e_kind b = EPlain 100) ->
+      E (Fv var) e e' ->
+      CTrace (ehier top g) (resolve_flat (ehier top g)) true n e ds ->
+      CTrace (ehier top g') (resolve_flat (ehier top g')) true n e' ds.
+Proof. intros g top new var preds Ss names cls g'. exact (insert_cb_keeps_ctrace g top new var preds Ss names cls g' true). Qed.
+Print Assumptions C06_header_unification_ctrl_safe.
